@@ -361,6 +361,10 @@ Proof. intros B. unfold start_create. go. Qed.
 Lemma ok_do_mcudone h tok ok : BusNT h -> res PF (do_mcudone h tok ok).
 Proof. intros B. unfold do_mcudone. go. Qed.
 
+Lemma ok_do_sendoffer h c sid s i stream : BusNT h -> res PF (do_sendoffer h c sid s i stream).
+Proof. intros B. unfold do_sendoffer. go. Qed.
+#[export] Hint Resolve ok_do_sendoffer : okdb.
+
 Lemma ok_do_media h c sid s to mk stream media : BusNT h -> res PF (do_media h c sid s to mk stream media).
 Proof. intros B. unfold do_media. go. Qed.
 
